@@ -173,6 +173,7 @@ type Cluster struct {
 	round     int
 	inRound   map[string]bool
 	edgeErrs  []string
+	retainLog []RetainRec
 	rpcPanics []string
 	keyedMax  map[string]int64
 	errc      chan error
@@ -185,9 +186,10 @@ type Cluster struct {
 	FailDeploy func(node string) error
 	checks     func(h *ophar.Handler, key []byte, pl ophar.Payload, sh ophar.KeyShadow) (string, string)
 	jobGen     int
-	Latency    func(seq int)                 // optional handler latency
-	KeyLatency func(runner string, call int) // optional latency of the key-by call (KeyEventBatch)
-	OnOpAck    func(a OpAck, w *Worker)      // synchronous, on the operator's event loop, before the ack is forwarded
+	Latency    func(seq int)                   // optional handler latency
+	KeyLatency func(runner string, call int)   // optional latency of the key-by call (KeyEventBatch)
+	HoldRetain func(node string, ids []uint64) // called when a retention update reaches an operator, before it is applied (may block)
+	OnOpAck    func(a OpAck, w *Worker)        // synchronous, on the operator's event loop, before the ack is forwarded
 	// OnOperatorDeploy is called before an operator's HandleDeploy is invoked (epoch switch: shadow = cut).
 	OnOperatorDeploy func(rec DeployRec)
 }
@@ -773,6 +775,12 @@ func (a *opAd) UpdateRetainedCheckpoints(ctx context.Context, ids []uint64) (err
 	w, leave := a.enter()
 	defer leave()
 	defer a.c.rpcRecover("UpdateRetainedCheckpoints("+a.node.Id+")", &err)
+	if hold := a.c.HoldRetain; hold != nil {
+		hold(a.node.Id, ids)
+	}
+	a.c.mu.Lock()
+	a.c.retainLog = append(a.c.retainLog, RetainRec{Tick: lib.Tick.Add(1), Node: a.node.Id, IDs: append([]uint64{}, ids...)})
+	a.c.mu.Unlock()
 	if w == nil {
 		return errors.New("verif: operator unreachable")
 	}
@@ -803,6 +811,20 @@ func (c *Cluster) rpcRecover(what string, err *error) {
 			*err = fmt.Errorf("verif: request handler panicked: %v", p)
 		}
 	}
+}
+
+// RetainRec is one retention update as it was applied at an operator.
+type RetainRec struct {
+	Tick int64
+	Node string
+	IDs  []uint64
+}
+
+// RetainLog: the retention updates in the order in which they were applied at the operators.
+func (c *Cluster) RetainLog() []RetainRec {
+	c.mu.Lock()
+	defer c.mu.Unlock()
+	return append([]RetainRec{}, c.retainLog...)
 }
 
 // RPCPanics: request handlers of workers that panicked (each with its stack).
